@@ -318,6 +318,15 @@ class Check:
         self.assumptions = []
         self.notes = []
         os.makedirs(EVID, exist_ok=True)
+        # replays of earlier runs of this check do not belong to this run
+        d = os.path.join(REPLAYS, pid)
+        if os.path.isdir(d):
+            for fn in os.listdir(d):
+                if fn.endswith(".json"):
+                    try:
+                        os.unlink(os.path.join(d, fn))
+                    except OSError:
+                        pass
 
     def violation(self, what, replay_obj, key=None):
         """Report a failing case. `key` identifies the specific input; if it is
